@@ -68,6 +68,68 @@ def dispatch_by_declared_id(helper):
     return simnet.run(go)
 
 
+def recycled_buffer_probe(helper, mode):
+    """The reads of a connected session arrive in a receive buffer the transport refills for its next read (mode 1: one bytearray
+    object, 2: memoryview slices of one pool) and the stream [state 1, state 2, PingRequest, state 3] is cut at every byte position:
+    the subscriber sees the three states once each in order, exactly one PingResponse is written, the session stays connected,
+    nothing escapes data_received. Returns the list of deviations."""
+    import asyncio
+    from vlib import noisesim, simnet
+
+    async def go(loop):
+        from aioesphomeapi import api_pb2 as pb
+        from aioesphomeapi.connection import APIConnection, ConnectionParams, ConnectionState as S
+        from aioesphomeapi.zeroconf import ZeroconfManager
+        bad = []
+        psk = bytes(range(1, 33))
+        msgs = [(25, pb.SensorStateResponse(key=1, state=1.0).SerializeToString()), (25, pb.SensorStateResponse(key=2, state=2.0).SerializeToString()),
+                (7, b""), (25, pb.SensorStateResponse(key=3, state=3.0).SerializeToString())]
+        n_stream = None
+        cutpos = 0
+        while n_stream is None or cutpos < n_stream:
+            net = simnet.Net(loop)
+            params = ConnectionParams(addresses=["10.0.0.1"], port=6053, password=None, client_info="v", keepalive=20.0,
+                                      zeroconf_manager=ZeroconfManager(), noise_psk=noisesim.b64(psk) if helper == "noise" else None, expected_name=None)
+            conn = APIConnection(params, lambda e: None, False, None)
+            seen = []
+            simnet.FEED_MODE[0] = 0
+            try:
+                with net.patched():
+                    await conn.start_connection()
+                    task = asyncio.ensure_future(conn.finish_connection(login=False))
+                    await simnet.drain(loop)
+                    tr = net.transports[-1]
+                    if helper == "noise":
+                        resp = noisesim.Responder(psk, b"dev")
+                        hs, _ = resp.handshake_frames(noisesim.split_frames(b"".join(d for _, d in tr.writes))[1][1:])
+                        tr.feed(resp.hello_frame() + hs)
+                        await simnet.drain(loop)
+                        frame = lambda i, p: resp.data_frame(i, p)[0]  # noqa: E731
+                    else:
+                        frame = simnet.plain_frame
+                    tr.feed(frame(2, pb.HelloResponse(api_version_major=1, api_version_minor=10, name="dev").SerializeToString()))
+                    await simnet.drain(loop)
+                    await task
+                    conn.add_message_callback(lambda m: seen.append(m.key), (pb.SensorStateResponse,))
+                    stream = b"".join(frame(i, p) for i, p in msgs)
+                    n_stream = len(stream)
+                    cutpos += 1
+                    n_w = len(tr.writes)
+                    simnet.FEED_MODE[0] = mode
+                    r = [tr.feed(stream[:cutpos]), tr.feed(stream[cutpos:]) if cutpos < n_stream else None]
+                    simnet.FEED_MODE[0] = 0
+                    await simnet.drain(loop)
+                    wrote = len(tr.writes) - n_w
+                    if seen != [1, 2, 3] or wrote != 1 or conn.connection_state is not S.CONNECTED or any(isinstance(x, BaseException) for x in r):
+                        bad.append((cutpos, list(seen), wrote, conn.connection_state.name, [repr(x) for x in r if x is not None]))
+                    conn.force_disconnect()
+                    await simnet.drain(loop)
+            finally:
+                simnet.FEED_MODE[0] = 0
+        return bad, n_stream
+    return simnet.run(go)
+
+
 def run(rep, tier, seed):
     connfamily.run(rep, tier, seed, "C12", VFILE, RULE)
     for helper in ("plaintext", "noise"):
@@ -78,6 +140,17 @@ def run(rep, tier, seed):
             i, seen, want, wrote, state = bad[0]
             rep.violation("C12/deliveries", f"{helper} connection, one subscriber per declared message class: a frame with id {i} reached {seen}, api.proto says {want} "
                           f"({wrote} frame(s) written in response, state {state}); {len(bad)} id(s) deviate", {"kind": "dispatch-by-declared-id", "helper": helper})
+    for helper in ("plaintext", "noise"):
+        for mode in (1, 2):
+            bad, n = recycled_buffer_probe(helper, mode)
+            what = "one bytearray refilled for every read" if mode == 1 else "memoryview slices of one pool"
+            rep.case(("recycled-buffer", helper, mode), True, sample={"recycled_buffer": helper, "mode": mode, "cut_positions": n, "deviations": bad[:3]})
+            rep.bump("probe:recycled-buffer", n)
+            if bad:
+                cutpos, seen, wrote, state, raised = bad[0]
+                rep.violation("C12/deliveries", f"{helper} connection, reads arrive in {what}; stream [state 1, state 2, PingRequest, state 3] ({n} bytes) cut after byte {cutpos}: "
+                              f"subscriber saw {seen} (must be [1, 2, 3]), {wrote} frame(s) written (must be the one PingResponse), state {state}, raised {raised}; "
+                              f"{len(bad)} of {n} cut positions deviate", {"kind": "recycled-buffer", "helper": helper, "mode": mode})
 
 
 def replay(path):
@@ -88,4 +161,10 @@ def replay(path):
         common.setup_impl_path()
         print(dispatch_by_declared_id(d["helper"]))
         return 0
+    if d.get("kind") == "recycled-buffer":
+        from vlib import common
+        common.setup_impl_path()
+        bad, n = recycled_buffer_probe(d["helper"], d["mode"])
+        print(bad[:5])
+        return 1 if bad else 0
     return connfamily.replay(path, "C12")
